@@ -44,7 +44,10 @@ fn c07_fraction_full_domain() {
             assert!(f == 0.0, "position 0 is empty");
         }
     }
-    kani::cover!(len.is_some() && pos > 0 && f > 0.0 && f < 1.0, "cover: strictly inside");
+    kani::cover!(
+        len.is_some() && pos > 0 && f > 0.0 && f < 1.0,
+        "cover: strictly inside"
+    );
 }
 
 /// Same claims on a narrowed domain (bounded stand-in for the quick tier).
@@ -70,11 +73,17 @@ fn c07_fraction_u24() {
             assert!(f == 1.0, "pos >= len is complete");
         }
         if l > 0 && pos < l {
-            assert!(f < 1.0, "for lengths up to 2^24 the fraction is 1 only when complete");
+            assert!(
+                f < 1.0,
+                "for lengths up to 2^24 the fraction is 1 only when complete"
+            );
         }
         if l > 0 && pos == 0 {
             assert!(f == 0.0, "position 0 is empty");
         }
     }
-    kani::cover!(len.is_some() && pos > 0 && f > 0.0 && f < 1.0, "cover: strictly inside");
+    kani::cover!(
+        len.is_some() && pos > 0 && f > 0.0 && f < 1.0,
+        "cover: strictly inside"
+    );
 }
